@@ -149,7 +149,9 @@ LoadMapPairs(pairs, KT, VT, pol, i, acc) ==
   IF i > Len(pairs) THEN <<"val", acc>>
   ELSE LET key == pairs[i][1]
            keyOk == (KT = "str" /\ key[1] = "str") \/ (KT = "i32" /\ key[1] = "int" /\ IntFits(key[2], key[3], "i32")) IN
-       IF ~keyOk THEN <<"any">>
+       \* an integer key the key type cannot represent follows the overflow policy: error, or the entry is skipped (key and value)
+       IF KT = "i32" /\ key[1] = "int" /\ ~keyOk THEN (IF pol.ov = "throw" THEN Overflow(pol) ELSE LoadMapPairs(pairs, KT, VT, pol, i + 1, acc))
+       ELSE IF ~keyOk THEN <<"any">>
        ELSE LET r == LoadLeaf(pairs[i][2], VT, pol) IN
             IF r[1] = "err" \/ r[1] = "any" THEN r
             ELSE LoadMapPairs(pairs, KT, VT, pol, i + 1, Append(acc, <<key, IF r[1] = "val" THEN r[2] ELSE Fresh(VT)>>))
